@@ -3,8 +3,11 @@ from propslib import fn_scope
 
 PROP = dict(
     extract=["editor", "capi_keys"],
-    lean_targets=["Chewing.Props.C06", "Chewing.Props.C06Layouts", "Chewing.Props.C06CApi"],
+    lean_targets=["Chewing.Props.C06", "Chewing.Props.C06Layouts", "Chewing.Props.C06CApi", "Chewing.Props.C06EditorTie"],
     runs=[dict(bin="editor"), dict(bin="editor", args=["--script", "c06"], tag="editor-c06-sweep"),
+          # closed-world BFS of the real editor (bfs.rs): one record per (reachable state, operation); the configurations that
+          # CLOSED are listed in the evidence (coverage.exhaustive_closed_worlds) - for those the tie is exhaustive (EditorTie.lean)
+          dict(bin="editor", args=["--bfs", "all"], tag="editor-bfs", timeout=1500, timeout_thorough=20000),
           dict(bin="capi_props", tag="capi_props", args=["--histories", "300", "--calls", "40"], args_thorough=["--histories", "6000", "--calls", "40"])],
     scope=fn_scope("ed key", "capiops call"),
     level="proof",
@@ -27,7 +30,8 @@ PROP = dict(
          "Reset) of a generated C-API history: the Lean model of capi/src/io.rs recomputes, from the facts the glue reads (is_selecting, "
          "is_entering, keyboard type, selection keys), the Editor call the harness twin made (the complete KeyEvent or the API method) and "
          "the value the REAL C function returned; #stat glue_records, glue_records_selection_key_under_open_list, "
-         "glue_records_key_outside_a_byte",
+         "glue_records_key_outside_a_byte. "
+         "Run editor-bfs (`editor --bfs all`, bfs.rs): breadth-first exploration of the REAL editor on small closed configurations (engine x auto_commit_threshold x option profile x alphabet over one tiny dictionary, auto-learning off), one `ed` record per (reachable state, operation of the alphabet), state identity = full snapshot + dictionary with only the estimator clock normalised; #stat bfs.<config>.closed / states / transitions / max_depth / states_<kind> / answers_<kind>; the configurations that closed are exhaustive ties (coverage.exhaustive_closed_worlds; Props/EditorTie.lean lifts them to every operation list over the alphabet), the others a breadth-first sample",
     trusted_base=["hook H1 (Editor::verif_snapshot) is read-only; the layout and conversion answers of each step are recorded "
                   "through wrapper objects installed through the public constructors"],
     assumptions=["'nothing is being composed' = state Entering with an empty pre-edit; an open candidate list or highlight "
